@@ -107,7 +107,16 @@ func recGen() *rapid.Generator[FRec] {
 		}
 		rep := 1
 		if rapid.IntRange(0, 11).Draw(t, "long") == 0 {
-			rep = rapid.SampledFrom([]int{25, 60, 400}).Draw(t, "rep")
+			rep = rapid.SampledFrom([]int{25, 60, 400, -5000, -70000, -140000}).Draw(t, "rep")
+			if rep < 0 { // a target length rather than a count
+				rep = (-rep + len(seq) - 1) / len(seq)
+			}
+		}
+		if rep > 1 && rapid.IntRange(0, 2).Draw(t, "wide") == 0 {
+			// unwrapped or widely wrapped sequence: lines around the 4 KiB and 64 KiB
+			// buffer sizes of line readers, or the whole sequence on one line
+			L := len(seq) * rep
+			w = rapid.SampledFrom([]int{4093, 4094, 4095, 4096, 4097, 65533, 65534, 65535, 65536, 65537, L - 1, L, L + 1}).Draw(t, "wideWidth")
 		}
 		return FRec{Name: name, Desc: desc, Sep: rapid.SampledFrom([]string{" ", "\t"}).Draw(t, "sep"), Seq: seq, Rep: rep, Width: w, Blank: blank}
 	})
@@ -327,6 +336,17 @@ func run(c Case, rec *h.Rec) {
 	rec.ClassIf(c.EagerEOF, "readerat_reports_eof_with_the_last_bytes")
 	rec.ClassIf(len(data) > 4096, "file_larger_than_4KiB")
 	rec.ClassIf(len(data) > 65536, "file_larger_than_64KiB")
+	wide4k, wide64k := false, false
+	for _, r := range c.Recs {
+		if n := len(r.full()); r.Width >= 4096 && n >= 4096 {
+			wide4k = true
+			if r.Width >= 65536 && n >= 65536 {
+				wide64k = true
+			}
+		}
+	}
+	rec.ClassIf(wide4k, "line_of_4KiB_or_more")
+	rec.ClassIf(wide64k, "line_of_64KiB_or_more")
 	rec.ClassIf(c.CRLF, "crlf")
 	rec.ClassIf(blankBefore, "blank_line_between_records")
 	rec.ClassIf(c.BlankEnd > 0, "blank_lines_at_end")
@@ -339,7 +359,7 @@ func readAll(r io.Reader, bs int) ([]byte, string) {
 	var out []byte
 	buf := make([]byte, bs)
 	zero := 0
-	for iter := 0; iter < 100000; iter++ {
+	for len(out) <= 1<<24 { // no generated sequence is anywhere near 16 MiB
 		n, err := r.Read(buf)
 		if n < 0 || n > bs {
 			return out, fmt.Sprintf("Read returned n=%d for a %d byte buffer", n, bs)
@@ -362,7 +382,7 @@ func readAll(r io.Reader, bs int) ([]byte, string) {
 			}
 		}
 	}
-	return out, "no io.EOF after 100000 reads"
+	return out, "no io.EOF after 16 MiB of data"
 }
 
 func TestProp(t *testing.T) {
